@@ -79,7 +79,8 @@ Theorem step_write_new_row (s : astate) id name exit duration delta log user tim
   representable (nth 5 fields (mkfdef [] FStr 5 true [])) log = true ->
   representable (nth 6 fields (mkfdef [] FStr 6 false [])) user = true ->
   exists r, spec_write s (render_Z id) (step_write_kvs name exit duration delta log user (Some time) skip) = Some (alist_put id r s) /\
-            proj_row (id, r) = mkrow id name exit skip.
+            proj_row (id, r) = mkrow id name exit skip /\
+            length r = 9%nat /\ nth_error r 0 = Some (Some (VInt id)) /\ nth_error r 7 = Some (Some (VInt time)).
 Proof.
   intros Hfind Hid Hnz He Hd Hdl Ht Hs Rn Rl Ru.
   assert (nk : forall k, existsb (N.eqb 61) k = false -> ~ In 61 k).
@@ -101,10 +102,10 @@ Proof.
   destruct log as [|c l].
   - cbn [app apply_kvs]. rewrite Dn, De, Dd, Ddl, Du, Dt, Ds. cbn [fd_index nth fields set_nth].
     cbn [complete keeps_id forallb fields fd_index nth_error andb]. rewrite Z.eqb_refl.
-    eexists. split; [reflexivity|]. reflexivity.
+    eexists. split; [reflexivity|]. cbn. auto.
   - cbn [app apply_kvs]. rewrite Dn, De, Dd, Ddl, Dl, Du, Dt, Ds. cbn [fd_index nth fields set_nth].
     cbn [complete keeps_id forallb fields fd_index nth_error andb]. rewrite Z.eqb_refl.
-    eexists. split; [reflexivity|]. reflexivity.
+    eexists. split; [reflexivity|]. cbn. auto.
 Qed.
 
 Corollary step_write_row_upsert (s : astate) id name exit duration delta log user time skip :
@@ -118,6 +119,83 @@ Corollary step_write_row_upsert (s : astate) id name exit duration delta log use
             map proj_row (alist_put id r s) = upsert (mkrow id name exit skip) (map proj_row s).
 Proof.
   intros Hf Hid Hnz He Hd Hdl Ht Hs Rn Rl Ru.
-  destruct (step_write_new_row s id name exit duration delta log user time skip Hf Hid Hnz He Hd Hdl Ht Hs Rn Rl Ru) as [r [H1 H2]].
+  destruct (step_write_new_row s id name exit duration delta log user time skip Hf Hid Hnz He Hd Hdl Ht Hs Rn Rl Ru) as [r [H1 [H2 _]]].
   exists r. split; [exact H1|]. rewrite proj_put, H2. reflexivity.
+Qed.
+
+(* ---- the UPDATE case: the completion record of step_exec_job ------------------------------------------------
+   step_write -l log -s id -n name -e exit -d duration -a delta (no -t): every key but [time] is passed again.
+   On a record that exists the dictionary specification keeps the fields that are not passed - here the start
+   time written by the in-flight record - and the orchestrator's row (id, name, exit, skip) is replaced. *)
+Lemma alist_find_put id r s : alist_find id (alist_put id r s) = Some r.
+Proof.
+  induction s as [|[i x] s IH]; cbn [alist_put alist_find].
+  - now rewrite Z.eqb_refl.
+  - destruct (Z.eqb_spec id i) as [->|Hne]; cbn [alist_find]; [now rewrite Z.eqb_refl|].
+    destruct (id <? i)%Z; cbn [alist_find]; [now rewrite Z.eqb_refl|].
+    destruct (Z.eqb_spec i id); [congruence|exact IH].
+Qed.
+
+Theorem step_write_update_row (s : astate) id r0 tm name exit duration delta log user skip :
+  alist_find id s = Some r0 ->
+  length r0 = 9%nat -> nth_error r0 0 = Some (Some (VInt id)) -> nth_error r0 7 = Some (Some tm) ->
+  (id_min <= id <= id_max)%Z -> id <> 0%Z -> log <> [] ->
+  i64 exit -> i64 duration -> i64 delta -> i64 skip ->
+  representable (nth 1 fields (mkfdef [] FStr 1 false [])) name = true ->
+  representable (nth 5 fields (mkfdef [] FStr 5 true [])) log = true ->
+  representable (nth 6 fields (mkfdef [] FStr 6 false [])) user = true ->
+  exists r, spec_write s (render_Z id) (step_write_kvs name exit duration delta log user None skip) = Some (alist_put id r s) /\
+            proj_row (id, r) = mkrow id name exit skip /\
+            nth_error r 7 = Some (Some tm) /\
+            nth_error r 0 = Some (Some (VInt id)) /\ length r = 9%nat /\
+            map proj_row (alist_put id r s) = upsert (mkrow id name exit skip) (map proj_row s).
+Proof.
+  intros Hfind Hlen H0 H7 Hid Hnz Hlog He Hd Hdl Hs Rn Rl Ru.
+  assert (nk : forall k, existsb (N.eqb 61) k = false -> ~ In 61 k).
+  { intros k H Hin. assert (existsb (N.eqb 61) k = true) by (apply existsb_exists; exists 61; split; [exact Hin|reflexivity]). congruence. }
+  destruct r0 as [|a0 [|a1 [|a2 [|a3 [|a4 [|a5 [|a6 [|a7 [|a8 [|? ?]]]]]]]]]]; try discriminate Hlen.
+  cbn in H0, H7. injection H0 as ->. injection H7 as ->.
+  unfold spec_write, denote_id. rewrite strtonum_render by exact Hid.
+  destruct (Z.eqb_spec id 0); [contradiction|]. rewrite Hfind.
+  unfold step_write_kvs. cbn [app].
+  assert (Dn := denote_str k_name (nth 1 fields (mkfdef [] FStr 1 false [])) name (nk k_name eq_refl) eq_refl eq_refl Rn).
+  assert (De := denote_int k_exit (nth 2 fields (mkfdef [] FStr 2 false [])) exit (nk k_exit eq_refl) eq_refl eq_refl He).
+  assert (Dd := denote_int k_duration (nth 3 fields (mkfdef [] FStr 3 false [])) duration (nk k_duration eq_refl) eq_refl eq_refl Hd).
+  assert (Ddl := denote_int k_delta (nth 4 fields (mkfdef [] FStr 4 false [])) delta (nk k_delta eq_refl) eq_refl eq_refl Hdl).
+  assert (Dl := denote_str k_log (nth 5 fields (mkfdef [] FStr 5 true [])) log (nk k_log eq_refl) eq_refl eq_refl Rl).
+  assert (Du := denote_str k_user (nth 6 fields (mkfdef [] FStr 6 false [])) user (nk k_user eq_refl) eq_refl eq_refl Ru).
+  assert (Ds := denote_int k_skip (nth 8 fields (mkfdef [] FStr 8 false [])) skip (nk k_skip eq_refl) eq_refl eq_refl Hs).
+  destruct log as [|c l]; [now elim Hlog|].
+  - cbn [app apply_kvs]. rewrite Dn, De, Dd, Ddl, Dl, Du, Ds. cbn [fd_index nth fields set_nth].
+    cbn [complete keeps_id forallb fields fd_index nth_error andb]. rewrite Z.eqb_refl.
+    eexists. split; [reflexivity|]. rewrite proj_put. cbn. auto 10.
+Qed.
+
+(* step_exec_job as a whole on the dictionary: the in-flight record of a step that has no record yet, then its
+   completion record.  Both writes are accepted; on the orchestrator's rows they are the two upserts of
+   OrchDefs.job_step; the start time of the first write survives the second. *)
+Theorem step_exec_job_two_writes (s : astate) id name log user time exit duration delta :
+  alist_find id s = None ->
+  (id_min <= id <= id_max)%Z -> id <> 0%Z -> log <> [] ->
+  i64 exit -> i64 duration -> i64 delta -> i64 time ->
+  representable (nth 1 fields (mkfdef [] FStr 1 false [])) name = true ->
+  representable (nth 5 fields (mkfdef [] FStr 5 true [])) log = true ->
+  representable (nth 6 fields (mkfdef [] FStr 6 false [])) user = true ->
+  exists r1 r2,
+    spec_write s (render_Z id) (step_write_kvs name (-1) (-1) 0 log user (Some time) 0) = Some (alist_put id r1 s) /\
+    spec_write (alist_put id r1 s) (render_Z id) (step_write_kvs name exit duration delta log user None 0)
+      = Some (alist_put id r2 (alist_put id r1 s)) /\
+    map proj_row (alist_put id r1 s) = upsert (mkrow id name (-1) 0) (map proj_row s) /\
+    map proj_row (alist_put id r2 (alist_put id r1 s)) = upsert (mkrow id name exit 0) (upsert (mkrow id name (-1) 0) (map proj_row s)) /\
+    nth_error r2 7 = Some (Some (VInt time)).
+Proof.
+  intros Hf Hid Hnz Hlog He Hd Hdl Ht Rn Rl Ru.
+  assert (Hm1 : i64 (-1)) by (unfold i64, i64_min, i64_max; lia).
+  assert (H00 : i64 0) by (unfold i64, i64_min, i64_max; lia).
+  destruct (step_write_new_row s id name (-1) (-1) 0 log user time 0 Hf Hid Hnz Hm1 Hm1 H00 Ht H00 Rn Rl Ru)
+    as [r1 [W1 [P1 [L1 [I1 T1]]]]].
+  destruct (step_write_update_row (alist_put id r1 s) id r1 (VInt time) name exit duration delta log user 0
+              (alist_find_put id r1 s) L1 I1 T1 Hid Hnz Hlog He Hd Hdl H00 Rn Rl Ru) as [r2 [W2 [P2 [T2 [_ [_ U2]]]]]].
+  exists r1, r2. split; [exact W1|]. split; [exact W2|]. split; [now rewrite proj_put, P1|]. split; [|exact T2].
+  rewrite U2, proj_put, P1. reflexivity.
 Qed.
